@@ -284,27 +284,30 @@ theorem CAt.app {c p0 : Nat} {s s' : St} (h : CAt c p0 s) (a : AppC c s s') (hr 
       · simp only [List.map_append, List.map_cons, List.map_nil, itemFrame]
         rw [hlog, hid, seg_snoc _ _ _ _ h.le hfid, hseg]
 
-/-- the search that owns channel `c` has been taken off the queue (so `c` will not be registered again) -/
-def TakenC (c : Nat) (s : St) : Prop := ∃ ch o, s.chans[c]? = some ch ∧ s.ops[ch.opIdx]? = some o ∧ o.phase = .taken
+/-- channel `c` belongs to operation number `i` with ID `k`, which has been taken off the queue (so
+`c` will not be registered again) -/
+def TakenC (c i k : Nat) (s : St) : Prop :=
+  ∃ ch o, s.chans[c]? = some ch ∧ ch.opIdx = i ∧ s.ops[i]? = some o ∧ o.id = k ∧ o.phase = .taken
 
 /-- one step, for a channel whose search has been taken off the queue, at a FIXED start position -/
-theorem CAt.step {c p0 : Nat} {s s' : St} (h : CAt c p0 s) (ht : TakenC c s) (hr : RouteInv s)
-    (cls : Quiet c s s' ∨ RegC c s s' ∨ AppC c s s') : CAt c p0 s' ∧ TakenC c s' := by
-  obtain ⟨ch, o, hc, ho, hph⟩ := ht
+theorem CAt.step {c p0 i k : Nat} {s s' : St} (h : CAt c p0 s) (ht : TakenC c i k s) (hr : RouteInv s)
+    (cls : Quiet c s s' ∨ RegC c s s' ∨ AppC c s s') : CAt c p0 s' ∧ TakenC c i k s' := by
+  obtain ⟨ch, o, hc, hx, ho, hk, hph⟩ := ht
+  subst hx
   rcases cls with q | r | a
   · refine ⟨h.transfer q, ?_⟩
     obtain ⟨ch', hc', hx⟩ := q.keep ch hc
-    obtain ⟨o', ho', _, hp⟩ := q.ops _ o ho
-    exact ⟨ch', o', hc', by rw [hx]; exact ho', hp hph⟩
+    obtain ⟨o', ho', hid, hp⟩ := q.ops _ o ho
+    exact ⟨ch', o', hc', hx, ho', hid.trans hk, hp hph⟩
   · obtain ⟨ch2, o2, hc2, ho2, hq2⟩ := r.was
     rw [hc] at hc2; cases hc2
     rw [ho] at ho2; cases ho2
     rw [hph] at hq2; cases hq2
   · refine ⟨h.app a hr, ?_⟩
-    obtain ⟨ch2, k, f, item, hc2, _, _, _, _, _, hchans, _, hops, _⟩ := a
+    obtain ⟨ch2, k2, f, item, hc2, _, _, _, _, _, hchans, _, hops, _⟩ := a
     rw [hc] at hc2; cases hc2
     have hclt : c < s.chans.length := (List.getElem?_eq_some_iff.mp hc).1
-    refine ⟨{ ch with items := ch.items ++ [item] }, o, ?_, by rw [hops]; exact ho, hph⟩
+    refine ⟨{ ch with items := ch.items ++ [item] }, o, ?_, rfl, by rw [hops]; exact ho, hk, hph⟩
     rw [hchans, List.getElem?_set]; simp [hclt]
 
 theorem P.step {c : Nat} {s s' : St} (h : P c s) (hr : RouteInv s)
